@@ -5,17 +5,19 @@ What the extracted model provides (Model/Euclid.v, Model/EuclidLP.v, theorems in
   c19.check    verified witness checker for an embedding (eucl_check_correct): exact rationals, strict distances
   c19.refuted  verified necessary conditions (C19_refute_sound): a profile that is not single-peaked or not
                single-crossing has no embedding, so the implementation must answer False
-  c19.algo     the extracted MIRROR of is_one_euclidean (Model/EuclidAlgo.v, exact LP oracle; eucl_algo_exact_sound: a
-               True answer carries a map accepted by c19.check; completeness only partial): run for m <= 6, n <= 12;
-               its verdict is recorded next to the implementation's and the reference's (evidence: 'mirror c19.algo:
-               ...'); a True answer where c19.decide says False, or an error, is reported as a broken model
+  c19.algo     the extracted MIRROR of is_one_euclidean (Model/EuclidAlgo.v, exact LP oracle): proved sound
+               (eucl_algo_exact_sound: a True answer carries a map accepted by c19.check), complete (eucl_algo_complete)
+               and hence exact (eucl_algo_exact_verdict: same verdict as c19.decide), independent of the iteration
+               order of Python's sets (eucl_algo_order_independent); run for m <= 6, n <= 12; a verdict of the
+               implementation that differs from the mirror's is a failure (kind verdict); a difference between the
+               mirror and c19.decide, or an error of the mirror, is reported as a broken model
   c19.decide   verified EXACT reference decider (eucl_decide_correct: Fourier-Motzkin elimination over Q for every
                axis on which the profile is single-peaked); doubly exponential, run for m <= 6 and n <= 12
 The correspondence therefore has three parts:
   (1) planted 1-Euclidean profiles: the generator's own embedding is accepted by c19.check, hence (planted_sound)
       the profile IS 1-Euclidean: the implementation must answer True and its map must pass c19.check;
   (2) small profiles (m <= 6, n <= 12): the verdict must equal c19.decide; the witness of a True answer must pass
-      c19.check; c19.refuted is evaluated as well (refuted => decide says False: cross-check of the model);
+      c19.check; c19.refuted is evaluated as well (refuted => decide says False: cross-check of the model); the verdict of the extracted mirror c19.algo must equal c19.decide as well;
   (3) the verdict must not depend on the storage order of the ballots (case op c19.orders: every storage
       order must get the verdict of c19.decide).
 Three defects found by this check were repaired in /repo (5a8bee2, 3211aad, 4ca33bd; minimised inputs in
@@ -69,7 +71,7 @@ THEOREMS_FOR_OP = {
                   "(Euclidean_perm)"}
 TRUSTED = ["is_one_euclidean is mirrored in Model/EuclidAlgo.v (precheck = the proved mirror sc_algo, colouring, axis, "
            "runs, band placement) with the LP (python-mip/CBC, floats) replaced by an exact rational oracle; the "
-           "mirror is proved sound, not complete; the implementation is tied to it only by comparing verdicts "
+           "mirror is proved sound, complete and independent of set iteration order; the implementation is tied to it only by comparing verdicts "
            "(m <= 6, n <= 12); the implementation's own map is judged by the verified checker at every size",
            "the exact reference c19.decide is only RUN for m <= 6 alternatives and n <= 12 distinct orders; beyond "
            "that size False answers are only checked on planted positives and True answers only through the "
@@ -628,8 +630,9 @@ def _model_inconsistent(M):
             return "c19.algo returned a malformed answer %r" % (a,)
         if a[0] == 1:
             return "the mirror c19.algo raised error code %r on a well-formed profile (contradicts eucl_algo_no_error)" % (a[1],)
-        if _algo_verdict(M) == 1 and M.get("decide") == 0:
-            return "the mirror c19.algo answers True but c19.decide = 0 (contradicts eucl_algo_exact_sound)"
+        if _algo_verdict(M) is not None and M.get("decide") is not None and _algo_verdict(M) != M.get("decide"):
+            return ("the mirror c19.algo answers %r but c19.decide = %r (contradicts eucl_algo_exact_verdict)"
+                    % (_algo_verdict(M), M.get("decide")))
     if M.get("refuted") == 1 and any(v == 1 for k, v in M.items() if k.startswith("wit") or k == "gen"):
         return "c19.refuted = 1 but c19.check accepted an embedding (contradicts refuted_no_witness)"
     return None
@@ -722,7 +725,7 @@ def stats(c, r, mres):
     if av is not None and isinstance(r, list) and r and r[0] == 0:
         lab.append("mirror c19.algo: verdict %s the implementation's" % ("=" if av == r[1] else "DIFFERS from"))
         if av != M.get("decide"):
-            lab.append("mirror c19.algo: verdict DIFFERS from the exact reference (mirror incomplete?)")
+            lab.append("mirror c19.algo: verdict DIFFERS from the exact reference (contradicts eucl_algo_exact_verdict)")
     elif c["op"] == "c19.planted":
         lab.append("planted beyond the size of the exact reference (positive oracle + witness check only)")
     try:
